@@ -59,6 +59,15 @@ example : fdRows ⟨.b1, .b1, false⟩ 4 = [[1, 0, 0, 0], [-1, 1, 0, 0], [0, -1,
 example : fdRows ⟨.b0, .b1, false⟩ 3 = [[0, 0, 0], [-1, 1, 0], [0, -1, 1], [0, 0, -1]] := by decide
 example : (List.range 3).map (fdEval (α := Int) ⟨.b1, .no, false⟩ 3 (fun j => [5, 7, 4].getD j 0)) = [5, 2, -3] := by decide
 
+/-- `SingleAxisFiniteSum` (`x + roll(x, −1)`, the low-pass half of the Haar transform used by the TV
+    norm) = ones on the diagonal and the circular superdiagonal (the class docstring without its
+    spurious first row, see `fixes/finitesum-docstring.patch`) -/
+theorem C04_finite_sum (n : Nat) (hn : 0 < n) (x : V K) (i : Nat) (hi : i < n) :
+    fsumEval n x i = mulVec (fsumMatrix n) n x i :=
+  fsumEval_eq_mulVec n hn x i hi
+
+example : (List.range 3).map (fun i => (List.range 3).map (fsumMatrix (α := Int) 3 i)) = [[1, 1, 0], [0, 1, 1], [1, 0, 1]] := by decide
+
 /-! ### stacks -/
 
 /-- `VerticalStack` = block column `(A_1; …; A_N)` -/
